@@ -19,9 +19,10 @@ import (
 	"github.com/hashicorp/hcl/v2"
 	"github.com/hashicorp/hcl/v2/hclsyntax"
 	"github.com/hashicorp/hcl/v2/hclwrite"
+	"hclverif/hv"
 )
 
-func init() { commands["c09"] = runC09 }
+func main() { hv.Main(map[string]func(*hv.RunCfg) error{"c09": runC09, "c09table": runC09Table}) }
 
 func gcount(b []byte) int {
 	n, _ := textseg.TokenCount(b, textseg.ScanGraphemeClusters)
@@ -29,7 +30,7 @@ func gcount(b []byte) int {
 }
 
 func coqTok(t *hclwrite.Token) string {
-	return fmt.Sprintf("T %s %s %s %s", coqZ(int(t.Type)), hexs(t.Bytes), coqZ(gcount(t.Bytes)), coqZ(t.SpacesBefore))
+	return fmt.Sprintf("T %s %s %s %s", hv.CoqZ(int(t.Type)), hv.Hexs(t.Bytes), hv.CoqZ(gcount(t.Bytes)), hv.CoqZ(t.SpacesBefore))
 }
 
 func cloneToks(ts hclwrite.Tokens) hclwrite.Tokens {
@@ -64,7 +65,7 @@ func c09Case(ts hclwrite.Tokens) (string, error) {
 			return "", fmt.Errorf("format changed token %d type/bytes", i)
 		}
 	}
-	return fmt.Sprintf("(%s, %s)", coqList(items), coqZList(sp)), nil
+	return fmt.Sprintf("(%s, %s)", hv.CoqList(items), hv.CoqZList(sp)), nil
 }
 
 type tokSig struct {
@@ -101,7 +102,7 @@ func sigEqual(a, b []tokSig) (bool, int) {
 // decide "parses to the same configuration".
 func bodyDump(b *hclsyntax.Body) string {
 	var sb strings.Builder
-	dumpBody(&sb, b)
+	hv.DumpBody(&sb, b)
 	return sb.String()
 }
 
@@ -142,7 +143,7 @@ func c09Oracle(src []byte) (kind, detail string) {
 	return "", ""
 }
 
-func randomTokens(r *rng) hclwrite.Tokens {
+func randomTokens(r *hv.Rng) hclwrite.Tokens {
 	types := []hclsyntax.TokenType{
 		hclsyntax.TokenOBrace, hclsyntax.TokenCBrace, hclsyntax.TokenOBrack, hclsyntax.TokenCBrack,
 		hclsyntax.TokenOParen, hclsyntax.TokenCParen, hclsyntax.TokenOQuote, hclsyntax.TokenCQuote,
@@ -155,12 +156,12 @@ func randomTokens(r *rng) hclwrite.Tokens {
 		hclsyntax.TokenQuotedLit, hclsyntax.TokenStringLit, hclsyntax.TokenNumberLit, hclsyntax.TokenIdent,
 		hclsyntax.TokenComment, hclsyntax.TokenNewline, hclsyntax.TokenEOF, hclsyntax.TokenInvalid, hclsyntax.TokenNil,
 	}
-	n := r.intn(30)
+	n := r.Intn(30)
 	ts := make(hclwrite.Tokens, 0, n+1)
 	for i := 0; i < n; i++ {
-		ty := types[r.intn(len(types))]
+		ty := types[r.Intn(len(types))]
 		// bias towards structure-relevant tokens
-		switch r.intn(6) {
+		switch r.Intn(6) {
 		case 0:
 			ty = hclsyntax.TokenNewline
 		case 1:
@@ -168,30 +169,30 @@ func randomTokens(r *rng) hclwrite.Tokens {
 		case 2:
 			ty = hclsyntax.TokenEqual
 		}
-		if ty == hclsyntax.TokenEOF && r.chance(0.8) {
+		if ty == hclsyntax.TokenEOF && r.Chance(0.8) {
 			ty = hclsyntax.TokenComment
 		}
 		var b string
 		switch ty {
 		case hclsyntax.TokenIdent:
-			b = r.pick("a", "in", "foo", "ünï")
+			b = r.Pick("a", "in", "foo", "ünï")
 		case hclsyntax.TokenComment:
-			b = r.pick("# c\n", "// c\n", "/* c */", "#", "/* a\nb */", "#\n")
+			b = r.Pick("# c\n", "// c\n", "/* c */", "#", "/* a\nb */", "#\n")
 		case hclsyntax.TokenNewline:
-			b = r.pick("\n", "\r\n")
+			b = r.Pick("\n", "\r\n")
 		case hclsyntax.TokenNumberLit:
-			b = r.pick("1", "2.5")
+			b = r.Pick("1", "2.5")
 		case hclsyntax.TokenQuotedLit, hclsyntax.TokenStringLit:
-			b = r.pick("s", "a b", "é́", "x\n")
+			b = r.Pick("s", "a b", "é́", "x\n")
 		case hclsyntax.TokenEOF:
 			b = ""
 		default:
 			b = string(rune(ty))
 		}
-		ts = append(ts, &hclwrite.Token{Type: ty, Bytes: []byte(b), SpacesBefore: r.intn(5)})
+		ts = append(ts, &hclwrite.Token{Type: ty, Bytes: []byte(b), SpacesBefore: r.Intn(5)})
 	}
-	if r.chance(0.8) {
-		ts = append(ts, &hclwrite.Token{Type: hclsyntax.TokenEOF, Bytes: []byte{}, SpacesBefore: r.intn(3)})
+	if r.Chance(0.8) {
+		ts = append(ts, &hclwrite.Token{Type: hclsyntax.TokenEOF, Bytes: []byte{}, SpacesBefore: r.Intn(3)})
 	}
 	return ts
 }
@@ -246,17 +247,17 @@ var c09Corpus = []string{
 	"a = \"%{~ for x in y ~}${~ x ~}%{~ endfor ~}\"\n",
 }
 
-func runC09(cfg *runCfg) error {
-	rep := newReport("C09", cfg.seed)
+func runC09(cfg *hv.RunCfg) error {
+	rep := hv.NewReport("C09", cfg.Seed)
 	rep.Rule = "configurations from the grammar-directed generator in 4 wildness levels (spacing, tabs, CRLF, comments in every legal position, heredocs, templates) + hand corpus; plus arbitrary token sequences fed to the formatter directly; non-trivial = at least 4 tokens and at least one space decision; distinct by SHA-256 of the input"
-	r := newRng(cfg.seed, 9)
-	cf := &caseFile{dir: cfg.out, name: "c09cases",
-		imports: "From Coq Require Import String.\nFrom HclV Require Import Base.Prelude Write.Format Write.FormatCheck.",
-		ctype:   "list tok * list Z", checker: "check_format_cases"}
+	r := hv.NewRng(cfg.Seed, 9)
+	cf := &hv.CaseFile{Dir: cfg.Out, Name: "c09cases",
+		Imports: "From Coq Require Import String.\nFrom HclV Require Import Base.Prelude Write.Format Write.FormatCheck.",
+		Ctype:   "list tok * list Z", Checker: "check_format_cases"}
 
 	var srcs []string
-	if cfg.replay != "" {
-		b, err := os.ReadFile(cfg.replay)
+	if cfg.Replay != "" {
+		b, err := os.ReadFile(cfg.Replay)
 		if err != nil {
 			return err
 		}
@@ -270,14 +271,14 @@ func runC09(cfg *runCfg) error {
 				}
 			}
 		}
-		for i := 0; i < cfg.n; i++ {
-			s, feat := genConfig(r)
+		for i := 0; i < cfg.N; i++ {
+			s, feat := hv.GenConfig(r)
 			for k, v := range feat {
 				rep.Histogram["feat:"+k] += v
 			}
-			if r.chance(0.1) {
-				s = mutate(r, s)
-				rep.hist("mutated")
+			if r.Chance(0.1) {
+				s = hv.Mutate(r, s)
+				rep.Hist("mutated")
 			}
 			srcs = append(srcs, s)
 		}
@@ -287,31 +288,31 @@ func runC09(cfg *runCfg) error {
 		toks := hclwrite.VerifLexConfig(src)
 		cs, err := c09Case(toks)
 		if err != nil {
-			rep.fail(Failure{Kind: "format-panic-or-mutation", Detail: err.Error(), Input: s})
+			rep.Fail(hv.Failure{Kind: "format-panic-or-mutation", Detail: err.Error(), Input: s})
 			continue
 		}
-		cf.add(cs)
-		rep.idx(s)
-		rep.count(s, len(toks) >= 4)
+		cf.Add(cs)
+		rep.Idx(s)
+		rep.Count(s, len(toks) >= 4)
 		if len(s) < 120 {
-			rep.sample(s)
+			rep.Sample(s)
 		}
 		kind, detail := c09Oracle(src)
 		if kind != "" {
-			rep.fail(Failure{Kind: kind, Detail: detail, Input: s})
-			rep.hist("oracle-fail:" + kind)
+			rep.Fail(hv.Failure{Kind: kind, Detail: detail, Input: s})
+			rep.Hist("oracle-fail:" + kind)
 		} else {
-			rep.hist("oracle-ok")
+			rep.Hist("oracle-ok")
 		}
 		if _, d := hclsyntax.ParseConfig(src, "t.hcl", hcl.InitialPos); d.HasErrors() {
-			rep.hist("input:has-parse-errors")
+			rep.Hist("input:has-parse-errors")
 		} else {
-			rep.hist("input:valid")
+			rep.Hist("input:valid")
 		}
 	}
 	// arbitrary token sequences (the model must agree on everything format accepts)
-	if cfg.replay == "" {
-		nt := cfg.n / 2
+	if cfg.Replay == "" {
+		nt := cfg.N / 2
 		for i := 0; i < nt; i++ {
 			ts := randomTokens(r)
 			key := fmt.Sprint(len(ts))
@@ -320,13 +321,13 @@ func runC09(cfg *runCfg) error {
 			}
 			cs, err := c09Case(ts)
 			if err != nil {
-				rep.fail(Failure{Kind: "format-panic-or-mutation", Detail: err.Error(), Input: key})
+				rep.Fail(hv.Failure{Kind: "format-panic-or-mutation", Detail: err.Error(), Input: key})
 				continue
 			}
-			cf.add(cs)
-			rep.idx("tokens:"+key)
-			rep.count(key, len(ts) >= 4)
-			rep.hist("random-token-sequence")
+			cf.Add(cs)
+			rep.Idx("tokens:" + key)
+			rep.Count(key, len(ts) >= 4)
+			rep.Hist("random-token-sequence")
 			// idempotence at token level on the real code
 			before := make([]int, len(ts))
 			for i, t := range ts {
@@ -335,24 +336,22 @@ func runC09(cfg *runCfg) error {
 			hclwrite.VerifFormat(ts)
 			for i, t := range ts {
 				if t.SpacesBefore != before[i] {
-					rep.fail(Failure{Kind: "not-idempotent-tokens", Detail: fmt.Sprintf("token %d spaces %d -> %d on second format", i, before[i], t.SpacesBefore), Input: key})
+					rep.Fail(hv.Failure{Kind: "not-idempotent-tokens", Detail: fmt.Sprintf("token %d spaces %d -> %d on second format", i, before[i], t.SpacesBefore), Input: key})
 					break
 				}
 			}
 		}
 	}
-	names, err := cf.flush(400)
+	names, err := cf.Flush(400)
 	if err != nil {
 		return err
 	}
 	rep.CaseFiles = names
-	return rep.write(cfg.out)
+	return rep.Write(cfg.Out)
 }
 
-func init() { commands["c09table"] = runC09Table }
-
 // runC09Table writes the exhaustive spaceAfterToken table as a Coq case file.
-func runC09Table(cfg *runCfg) error {
+func runC09Table(cfg *hv.RunCfg) error {
 	// type codes: read from the generated Coq table's Go twin — all token
 	// types of hclsyntax plus one unknown code.
 	types := allTokenTypeCodes()
@@ -360,7 +359,7 @@ func runC09Table(cfg *runCfg) error {
 	tbl := spaceTable(types)
 	var b strings.Builder
 	b.WriteString("From Coq Require Import String.\nFrom HclV Require Import Base.Prelude Write.Format Write.FormatCheck.\nOpen Scope string_scope.\nOpen Scope Z_scope.\n")
-	fmt.Fprintf(&b, "Definition types : list Z := %s.\n", coqZList(types))
+	fmt.Fprintf(&b, "Definition types : list Z := %s.\n", hv.CoqZList(types))
 	// the table is split in chunks to keep string literals moderate
 	const chunk = 20000
 	var parts []string
@@ -373,16 +372,16 @@ func runC09Table(cfg *runCfg) error {
 	}
 	fmt.Fprintf(&b, "Definition observed : list string := [\n%s].\n", strings.Join(parts, ";\n"))
 	b.WriteString("Definition bad := Eval vm_compute in space_table_mismatches types observed.\nPrint bad.\n")
-	rep := newReport("C09", cfg.seed)
+	rep := hv.NewReport("C09", cfg.Seed)
 	rep.Exhaustive["space_after_rows"] = len(tbl)
 	rep.Evaluations = len(tbl)
-	if err := os.WriteFile(filepath.Join(cfg.out, "c09table_0.v"), []byte(b.String()), 0o644); err != nil {
+	if err := os.WriteFile(filepath.Join(cfg.Out, "c09table_0.v"), []byte(b.String()), 0o644); err != nil {
 		return err
 	}
 	rep.CaseFiles = []string{"c09table_0.v"}
-	b2 := filepath.Join(cfg.out, "table")
+	b2 := filepath.Join(cfg.Out, "table")
 	os.MkdirAll(b2, 0o755)
-	return rep.write(b2)
+	return rep.Write(b2)
 }
 
 func allTokenTypeCodes() []int {
